@@ -291,6 +291,12 @@ def show_atom(a):
 # call models
 # --------------------------------------------------------------------------
 IDENTITY_CALLS = {
+    "typewit::type_eq::<impl typewit::TypeEq<L, R>>::to_right": -1,
+    "typewit::type_eq::<impl typewit::TypeEq<L, R>>::to_left": -1,
+    "typewit::type_eq::<impl typewit::TypeEq<L, R>>::reachability_hint": -1,
+    "typewit::type_eq::<impl typewit::TypeEq<L, R>>::in_ref": 0,
+    "typewit::type_eq::<impl typewit::TypeEq<L, R>>::in_mut": 0,
+    "typewit::type_eq::<impl typewit::TypeEq<L, R>>::flip": 0,
     "typewit::TypeEq::to_right": -1, "typewit::TypeEq::to_left": -1,
     "typewit::type_eq::TypeEq::to_right": -1, "typewit::type_eq::TypeEq::to_left": -1,
 }
@@ -898,13 +904,31 @@ def paths_of(body, program=None, **kw):
     return Enumerator(body, opts).run()
 
 
+def never_assigned_params(body):
+    changed = set()
+    for b in body.reachable():
+        blk = body.blocks[b]
+        for st in blk["stmts"]:
+            if st["k"] == "assign":
+                changed.add(st["place"]["l"])
+                rv = st["rv"]
+                if rv["k"] in ("ref", "rawptr") and rv.get("mut"):
+                    changed.add(rv["place"]["l"])
+        t = blk["term"]
+        if t["k"] == "call":
+            changed.add(t["dest"]["l"])
+    return {l for l in range(1, body.arg_count + 1) if l not in changed}
+
+
 def loop_relation(body, header, program=None, **kw):
-    """paths from a loop header (all locals symbolic: ('L', n)) to the next cut/return"""
+    """paths from a loop header to the next cut/return; locals are symbolic ('L', n) except parameters that are
+    never assigned anywhere in the body, which stay ('p', n)"""
     opts = Options(program=program, **kw)
     e = Enumerator(body, opts)
+    fixed = never_assigned_params(body)
 
     def sym(l):
-        return ("L", l)
+        return ("p", l) if l in fixed else ("L", l)
     return e.run(start=header, sym=sym)
 
 
